@@ -409,7 +409,7 @@ const FUND_MOVING: &[&str] = &[
     "swap", "swap_v2", "two_hop_swap", "two_hop_swap_v2", "increase_liquidity", "increase_liquidity_v2", "decrease_liquidity", "decrease_liquidity_v2",
     "increase_liquidity_by_token_amounts_v2", "reposition_liquidity_v2", "collect_fees", "collect_fees_v2", "collect_reward", "collect_reward_v2",
     "collect_protocol_fees", "collect_protocol_fees_v2", "update_fees_and_rewards", "set_reward_emissions", "set_reward_emissions_v2", "initialize_reward", "initialize_reward_v2",
-    "set_adaptive_fee_constants",
+    "set_adaptive_fee_constants", "reset_position_range",
 ];
 
 #[derive(Clone, Debug, PartialEq, Eq)]
